@@ -161,6 +161,7 @@ pub fn gen_lzma2(t: &mut Tape, max_total: u64, strict_order: bool) -> Lzma2Built
     }
     let mut need_dict_reset = true;
     let mut props_set = false;
+    let mut abandoned = false;
     let mut total = 0u64;
     let cfg = gen::draw_cfg(t);
     let mut ps = gen::ProgStats::default();
@@ -297,9 +298,11 @@ pub fn gen_lzma2(t: &mut Tape, max_total: u64, strict_order: bool) -> Lzma2Built
             }
             let before = w.enc.model.out.len();
             if !w.end_lzma_chunk(reset, ts) {
-                // could not be framed (payload too large): cannot happen with
-                // the sizes above; bail out with what we have
+                // could not be framed (payload above 64 KiB: the aimed-at-the-maximum
+                // chunk overshot by a byte): drop that chunk and stop here
                 let _ = before;
+                w.abandon_chunk();
+                abandoned = true;
                 break;
             }
             if reset == 3 {
@@ -316,7 +319,7 @@ pub fn gen_lzma2(t: &mut Tape, max_total: u64, strict_order: bool) -> Lzma2Built
     // its probabilities saturate, followed by a no-reset chunk repeating it a
     // few more times: that second chunk's payload is just the 5-byte range-coder
     // preamble (the smallest legal compressed size)
-    if total + 20_000 < max_total.max(30_000) && t.below(10) == 0 {
+    if !abandoned && total + 20_000 < max_total.max(30_000) && t.below(10) == 0 {
         let reset: u8 = if need_dict_reset { 3 } else if props_set { t.below(4) as u8 } else { 2 + t.below(2) as u8 };
         let newp = if reset >= 2 { Some(gen::draw_props(t, true)) } else { None };
         let ts = w.enc.trace.len();
@@ -385,6 +388,7 @@ pub fn gen_lzma2_size_boundary(t: &mut Tape) -> Lzma2Built {
             }
         }
         if !w.end_lzma_chunk(reset, ts) {
+            w.abandon_chunk();
             break;
         }
         note.push_str(&format!("L{}[{}] ", reset, target));
@@ -428,6 +432,7 @@ pub fn gen_lzma2_huge(t: &mut Tape) -> Lzma2Built {
             }
         }
         if !w.end_lzma_chunk(reset, ts) {
+            w.abandon_chunk();
             break;
         }
         note.push_str(&format!("L{}[{}] ", reset, target));
